@@ -344,4 +344,6 @@ pub fn run(rep: &mut Report, rng: &mut Rng, thorough: bool) {
             rep.case(sig, !data.is_empty(), || detail());
         }
     }
+    // the `.lzma` / raw writer models in fast mode (Model/LzmaWriter.lean), byte exact
+    crate::fastw::run_lzma(rep, &mut rng.fork(), thorough);
 }
